@@ -27,3 +27,16 @@ Theorem C01_branch_unsat : forall L, fsound_ok L -> forall t b tk,
   forall M f, model_ok L M -> fmap_ok M f -> ~ ibsat (fl_S L) M f b.
 Proof. exact gcheck_sound. Qed.
 Print Assumptions C01_branch_unsat.
+
+(* The same for ARBITRARY (finite or infinite) many-valued Kripke structures with constant domain:
+   a structure (Sem/AModel.v) is any frame + domain + evaluation function obeying the semantic clauses
+   (operators by the tables; a quantified / modal sentence gets the logic's generalisation of the set
+   of values of its instances / at the accessible worlds). No axioms. *)
+From PT Require Import Sem.AModel Tab.ASound.
+Theorem C01_sound_all_structures : forall L, fsound_ok L ->
+  (fl_hd L = false -> neg_flips_t (s_t (fl_S L)) = true) ->
+  forall t prems concl,
+    gcheck L t (trunk (fl_hd L) 0 prems concl) [] = true -> gall_closed t = true ->
+    forall (M : amodel (fl_S L)), amodel_ok L M -> forall u ce, ~ acountermodel (fl_S L) M u ce prems concl.
+Proof. exact argument_sound_a. Qed.
+Print Assumptions C01_sound_all_structures.
